@@ -2,8 +2,8 @@
 
 package sm4
 
-// Fallback when the declarations of sealAsm / openAsm / copyAsm / needExpand are not the ones the
-// monitors were written for: direct calls are unavailable, sections that need them are skipped.
+// Fallback when the declarations of sealAsm / openAsm are not the ones the monitors were written for: direct calls
+// are unavailable, sections that need them are skipped.
 
 const asmDirectAvailable = false
 
@@ -14,7 +14,3 @@ func vSealAsm(rk *uint32, tagSize int, dst *byte, nonce, plaintext, aad []byte, 
 func vOpenAsm(rk *uint32, tagSize int, dst *byte, nonce, ciphertext, aad []byte, temp *byte) int {
 	panic("direct call unavailable")
 }
-
-func vCopyAsm(dst, src *byte, n int) { panic("direct call unavailable") }
-
-func vNeedExpand(array []byte, asked int) int { panic("direct call unavailable") }
